@@ -21,7 +21,10 @@ RULE = (
     "merges tried at every generated split point and compared with the sketch of the concatenated stream over the "
     "whole universe plus random probes. Non-trivial: the sketch's own state shows a collision (two distinct items "
     "sharing a cell/bit), an eviction (TopK), a compression (t-digest centroids < samples), a replacement "
-    "(reservoir n>k) or a differing key (Merkle). Distinct by hash of the case."
+    "(reservoir n>k) or a differing key (Merkle). Also: merges of merged sketches (tree reduction through accumulators, "
+    "chains), Merkle trees maintained key by key from empty with None / empty-string values, and family `alias`: keys that "
+    "compare equal but print differently used side by side in two sketches of one process with up to 5000 unrelated "
+    "items hashed in between (truth keyed by printed form). Distinct by hash of the case."
 )
 ASSUMPTIONS = [
     "items are queried with the very objects that were inserted (no 1 vs 1.0 aliasing)",
@@ -94,6 +97,7 @@ def gen_freq(kind):
             "universe": uni,
             "stream": _stream(rng, uni, n),
             "split": rng.randrange(0, n + 1),
+            "split2": rng.randrange(0, n + 1),
             "seed": rng.choice([None, 0, 1, 7, 12345]),
             "probes": [f"probe{rng.randrange(10**6)}" for _ in range(10)] + [rng.randrange(10**7, 10**8) for _ in range(5)],
         }
@@ -352,6 +356,39 @@ def run_freq(case: dict) -> Result:
         if 0 < split < len(stream):
             res.nontrivial = res.nontrivial or kind == "hll"
             res.count("merges_with_both_sides_nonempty")
+        # merges of merged sketches: tree reduction through accumulators that were never add()ed to, and a chain
+        split2 = case.get("split2", (split + len(stream) + 1) // 2)
+        lo, hi = min(split, split2), max(split, split2)
+        parts = []
+        for seg in (stream[:lo], stream[lo:hi], stream[hi:]):
+            sk = _mk(case)
+            _feed(sk, uni, seg)
+            parts.append(sk)
+
+        def state(x):
+            return x._bits if kind == "bloom" else x._counters if kind == "cms" else x._registers
+
+        acc = _mk(case)
+        acc.merge(parts[0])
+        acc.merge(parts[1])
+        top = _mk(case)
+        top.merge(acc)
+        top.merge(parts[2])
+        res.count("multi_level_merges_checked")
+        if state(top) != state(whole) or top.item_count != whole.item_count:
+            res.add("merge-state-differs", comp, "tree-reduction-through-accumulators", "leaf -> accumulator -> top differs from the sketch of the whole stream")
+        chain = copy.deepcopy(parts[0])
+        chain.merge(parts[1])
+        last = copy.deepcopy(parts[2])
+        last.merge(chain)
+        if state(last) != state(whole) or last.item_count != whole.item_count:
+            res.add("merge-state-differs", comp, "merged-sketch-merged-again", "c.merge(a.merge(b)) differs from the sketch of the whole stream")
+        for x in qs:
+            res.count("queries_checked")
+            if kind == "bloom" and truth.get(x, 0) > 0 and not (top.contains(x) and last.contains(x)):
+                res.add("false-negative", comp, "after-multi-level-merge", f"item {x!r}")
+            elif kind == "cms" and min(top.estimate(x), last.estimate(x)) < truth.get(x, 0):
+                res.add("underestimate", comp, "after-multi-level-merge", f"estimate({x!r})={min(top.estimate(x), last.estimate(x))} < true {truth.get(x, 0)}")
     return res
 
 
@@ -514,24 +551,31 @@ def run_reservoir(case: dict) -> Result:
 def gen_merkle(rng: random.Random, tier: str) -> dict:
     n = rng.choice([0, 1, 2, 3, 4, 5, 7, 8, 9, 16, 33])
     keys = _dedupe([rng.choice(["k", "key", "a", "z", ""]) + str(rng.randrange(0, 40)) for _ in range(n)])
-    a = {k: rng.randrange(0, 5) for k in keys}
+    vdom = rng.choice(["int", "int", "mixed"])
+
+    def val():
+        # tombstones / placeholders are ordinary values (no bool / float: 1 == 1.0 == True would alias)
+        return rng.randrange(0, 5) if vdom == "int" else rng.choice([None, None, "", "v", 0, 3, "None"])
+
+    a = {k: val() for k in keys}
     b = dict(a)
     ops = []
     for _ in range(rng.choice([0, 0, 1, 1, 2, 3])):
         op = rng.choice(["change", "add", "remove", "swap"])
         if op == "change" and b:
             k = rng.choice(sorted(b))
-            b[k] = b[k] + 1 + rng.randrange(3)
+            old = b[k]
+            b[k] = (old + 1 + rng.randrange(3)) if vdom == "int" else rng.choice([x for x in [None, "", "v", 0, 3, "None"] if x != old or type(x) is not type(old)])
         elif op == "add":
             k = rng.choice(["k", "a", "zz", "0", "m"]) + str(rng.randrange(40, 80))
-            b[k] = rng.randrange(0, 5)
+            b[k] = val()
         elif op == "remove" and b:
             del b[rng.choice(sorted(b))]
         elif op == "swap" and len(b) >= 2:
             k1, k2 = rng.sample(sorted(b), 2)
             b[k1], b[k2] = b[k2], b[k1]
         ops.append(op)
-    return {"kind": "merkle", "a": a, "b": b, "via_update": rng.random() < 0.3, "ops": ops}
+    return {"kind": "merkle", "a": a, "b": b, "via_update": rng.choice([False, False, True, "from-empty"]), "ops": ops, "order_seed": rng.randrange(10**6)}
 
 
 def run_merkle(case: dict) -> Result:
@@ -541,7 +585,16 @@ def run_merkle(case: dict) -> Result:
     comp = "MerkleTree"
     a, b = case["a"], case["b"]
     ta = MerkleTree.build(a)
-    if case["via_update"]:
+    if case["via_update"] == "from-empty":
+        # maintained key by key from an empty tree, in an arbitrary order, some keys written twice
+        tb = MerkleTree()
+        items = list(b.items())
+        random.Random(case.get("order_seed", 0)).shuffle(items)
+        for k, v in items:
+            tb.update(k, v)
+        for k, v in items[: len(items) // 3]:
+            tb.update(k, v)
+    elif case["via_update"]:
         tb = MerkleTree.build(a)
         for k in list(a):
             if k not in b:
@@ -585,7 +638,85 @@ def _merkle_shape(a, b):
     return "different-sizes"
 
 
+# ---- equal-but-differently-printed items, many sketches in one process -----
+
+
+def gen_alias(rng: random.Random, tier: str) -> dict:
+    """Keys that compare equal but are different objects to a sketch that identifies items by their printed form
+    (("user", 7) / ("user", 7.0) / ("user", True)), used side by side, in several sketches of one process, with a
+    large number of unrelated items hashed in between."""
+    m = rng.choice([1, 3, 10, 40])
+    base = [rng.randrange(0, 50) for _ in range(m)]
+    return {
+        "kind": rng.choice(["bloom", "cms"]),
+        "base": base,
+        "variant": rng.choice(["float", "bool-or-float", "neg-zero"]),
+        "filler": rng.choice([0, 50, 600, 5000, 5000]),
+        "filler_on_other_sketch": rng.random() < 0.5,
+        "second_round": rng.random() < 0.5,
+        "seed": rng.choice([None, 0, 7]),
+    }
+
+
+def run_alias(case: dict) -> Result:
+    from happysimulator.sketching import BloomFilter, CountMinSketch
+
+    res = Result()
+    kind = case["kind"]
+
+    def mk():
+        if kind == "bloom":
+            return BloomFilter(size_bits=1 << 17, num_hashes=3, seed=case["seed"])
+        return CountMinSketch(width=4096, depth=3, seed=case["seed"])
+
+    def variant(i):
+        if case["variant"] == "float":
+            return ("user", float(i))
+        if case["variant"] == "neg-zero":
+            return ("user", i, -0.0)
+        return ("user", True) if i == 1 else ("user", float(i))
+
+    def original(i):
+        return ("user", i, 0.0) if case["variant"] == "neg-zero" else ("user", i)
+
+    sk, other = mk(), mk()
+    comp = type(sk).__name__
+    truth = Counter()  # keyed by printed form: sound whether the sketch identifies items by repr or by equality
+
+    def add(s, x):
+        s.add(x)
+        if s is sk:
+            truth[repr(x)] += 1
+
+    for i in case["base"]:
+        add(sk, original(i))
+    rounds = 2 if case["second_round"] else 1
+    for r in range(rounds):
+        target = other if case["filler_on_other_sketch"] else sk
+        for j in range(case["filler"]):
+            add(target, ("filler", r, j))
+        # the differently printed equals: looked up here, inserted into the other sketch
+        for i in case["base"]:
+            (sk.contains if kind == "bloom" else sk.estimate)(variant(i))
+            add(other, variant(i))
+        for i in case["base"]:
+            x = original(i)
+            res.count("queries_checked")
+            if kind == "bloom":
+                if not sk.contains(x):
+                    res.add("false-negative", comp, "equal-items-with-different-printed-form", f"{x!r} was inserted; contains() is False after {variant(i)!r} was used")
+                    break
+            elif sk.estimate(x) < truth[repr(x)]:
+                res.add("underestimate", comp, "equal-items-with-different-printed-form", f"estimate({x!r})={sk.estimate(x)} < {truth[repr(x)]}")
+                break
+    res.nontrivial = case["filler"] >= 600
+    if case["filler"] >= 5000:
+        res.count("alias_cases_with_large_filler")
+    return res
+
+
 FAMILIES = {
+    "alias": Family("alias", gen_alias, run_alias),
     "bloom": Family("bloom", gen_freq("bloom"), run_freq),
     "cms": Family("cms", gen_freq("cms"), run_freq),
     "hll": Family("hll", gen_freq("hll"), run_freq),
@@ -596,8 +727,9 @@ FAMILIES = {
 }
 
 BUDGET = {
-    "quick": {"bloom": 1000, "cms": 1000, "hll": 500, "topk": 1200, "tdigest": 1000, "reservoir": 600, "merkle": 1500},
+    "quick": {"alias": 60, "bloom": 1000, "cms": 1000, "hll": 500, "topk": 1200, "tdigest": 1000, "reservoir": 600, "merkle": 1500},
     "thorough": {
+        "alias": 1500,
         "bloom": 40000,
         "cms": 40000,
         "hll": 10000,
